@@ -34,6 +34,7 @@ type scen struct {
 	PendRead   []bool   `json:"pending_read"`
 	Late       string   `json:"late,omitempty"` // "", "new" (from an unknown remote), "known" (from accepted conn 0's remote)
 	Batch      bool     `json:"batch"`
+	Filter     bool     `json:"accept_filter,omitempty"` // an AcceptFilter that admits everything (user code running inside the read loop)
 	Strategy   string   `json:"strategy"`
 	Seed       int64    `json:"seed"`
 	Trace      []string `json:"trace,omitempty"`
@@ -112,6 +113,9 @@ func runOne(sc *scen, st sched.Strategy, settle bool, hit map[int]bool) (rs resu
 	lc := udp.ListenConfig{}
 	if sc.Batch {
 		lc.Batch = udp.BatchIOConfig{Enable: true, ReadBatchSize: 4, WriteBatchSize: 1, WriteBatchInterval: 2 * time.Millisecond}
+	}
+	if sc.Filter {
+		lc.AcceptFilter = func([]byte) bool { return true }
 	}
 	l, err := lc.Listen("udp", &net.UDPAddr{IP: net.IPv4(127, 0, 0, 1)})
 	if err != nil {
@@ -558,6 +562,7 @@ func genScen(rng *rand.Rand) *scen {
 	sc.PendAccept = rng.Intn(2) == 0
 	sc.Late = []string{"", "", "new", "known"}[rng.Intn(4)]
 	sc.Batch = rng.Intn(5) == 0
+	sc.Filter = rng.Intn(3) == 0
 	switch rng.Intn(10) {
 	case 0, 1:
 		sc.Strategy = "random"
@@ -592,7 +597,7 @@ func main() {
 	flag.Parse()
 	_ = nshard
 	r := res.New("C12")
-	r.Rule = "scenarios with 0-3 accepted and 0-2 un-accepted connections on a real loopback listener; tasks: listener Close (once/twice), per-connection Close (once/twice), a pending Accept, pending Reads, a late datagram (known / new remote), batch I/O on/off; executed under the cooperative scheduler (yield points in udp/conn.go, udp/batchconn.go, packetio/buffer.go, deadline.go) with PCT d=2..4, random and DFS(preemption<=2) strategies; oracle after each schedule: no panic, nothing parked that a Close must release, every accepted un-closed connection (also one handed out by a racing Accept) still exchanges datagrams, port not re-bindable while anything is open, re-bindable and no goroutine of package udp left once everything is closed, second Close harmless; distinct = distinct schedules"
+	r.Rule = "scenarios with 0-3 accepted and 0-2 un-accepted connections on a real loopback listener; tasks: listener Close (once/twice), per-connection Close (once/twice), a pending Accept, pending Reads, a late datagram (known / new remote), batch I/O on/off, an accept filter that admits everything (user code inside the read loop) on/off; executed under the cooperative scheduler (yield points in udp/conn.go, udp/batchconn.go, packetio/buffer.go, deadline.go) with PCT d=2..4, random and DFS(preemption<=2) strategies; oracle after each schedule: no panic, nothing parked that a Close must release, every accepted un-closed connection (also one handed out by a racing Accept) still exchanges datagrams, port not re-bindable while anything is open, re-bindable and no goroutine of package udp left once everything is closed, second Close harmless; distinct = distinct schedules"
 	r.Assumptions = []string{"loopback UDP delivers a datagram to an open socket within 3 s (used only for must-arrive probes on connections the property requires to be alive)", "goroutine-leak probe samples runtime.Stack until empty, at least 10 ms"}
 	hit := map[int]bool{}
 	seenKeys := map[string]int{}
